@@ -20,6 +20,8 @@
 package asm
 
 import (
+	"strings"
+
 	"github.com/llir/ll/ast"
 	"github.com/llir/llvm/ir"
 	"github.com/llir/llvm/ir/types"
@@ -188,5 +190,8 @@ func localIdentOfValue(v local) ir.LocalIdent {
 	if v.IsUnnamed() {
 		return ir.LocalIdent{LocalID: v.ID()}
 	}
-	return ir.LocalIdent{LocalName: v.Name()}
+	// Note, Name quotes (and re-formats) numeric names such as "42"; the index
+	// is keyed by the plain name, as decoded from the identifier by localIdent.
+	name := unquote(strings.TrimPrefix(v.Ident(), "%"))
+	return ir.LocalIdent{LocalName: name}
 }
